@@ -26,6 +26,7 @@ ExplainsStrip(e) ==
           IF e.lists_ok
           THEN e.pos[p].kept = KeptIdx(e.pos[p].names, Range(e.D))
           ELSE KeptOkUnknownD(e.pos[p].names, e.pos[p].kept)
+    /\ ("generated" \in DOMAIN e /\ e.lists_ok => Range(e.generated) \subseteq Range(e.D))   \* nothing is generated that the lists do not name
 
 \* impl items re-emitted unchanged
 ExplainsImplItem(e) == e.item_present /\ e.item_equal
